@@ -24,7 +24,12 @@ class C09(vlib.PropertyCheck):
     impl_kwargs = L.IMPL_KW
     nontrivial_rule = ('generated config texts over the line grammar (comment | begin NAME | end | %include F | text, plus the '
                        'odd spellings the classifier distinguishes), nested 0-255 deep with emphasis on every capacity doubling, '
-                       'include trees of 1-4 files, contexts registered at random (with "null" re-registration and duplicates); '
+                       'include trees of 1-4 files, contexts registered at random (with "null" re-registration and duplicates); contexts AND application '
+                       'functions registered 0-5, 9-11, 19-21, 39-41 (thorough: every doubling of both tables up to 240) strong, in either order and interleaved, '
+                       'before files that open blocks of the first, middle and last registered context and of names just outside the registered range '
+                       '(a name of an earlier cycle among them) and hold %-lines with a % that starts no call, unknown calls and calls to the registered '
+                       'functions, then a second and third init/register/use/free cycle with other numbers; the heap is dirtied before every init and '
+                       'every realloc\'ed byte is painted; '
                        'a case is non-trivial when the model does not fault and at least one registered handler was called; '
                        'distinct = distinct case lines')
     assumptions = ['handlers do not touch the parser\'s own state (they are functions of their arguments and of their own world)',
@@ -70,6 +75,7 @@ class C09(vlib.PropertyCheck):
         cases += L.gen_chain([9, 10, 11, 19, 20, 21, 39, 40, 41, 79, 80, 81, 159, 160, 161, 254, 255] if quick else [1, 2, 8, 9, 10, 11, 12, 19, 20, 21, 22, 39, 40, 41, 42, 79, 80, 81, 82, 159, 160, 161, 162, 200, 253, 254, 255])
         cases += L.gen_tables(rng, [1, 18, 19, 20, 21, 39, 40, 159, 160, 161, 255] if quick else [0, 1, 2, 18, 19, 20, 21, 38, 39, 40, 41, 78, 79, 80, 81, 158, 159, 160, 161, 200, 247, 248, 254, 255])
         cases += L.gen_open(rng, long_version=False)
+        cases += L.gen_registered(rng, L.REG_COUNTS_QUICK if quick else sorted(set(L.REG_COUNTS_QUICK + L.REG_COUNTS_MORE)))
         cases += L.gen_structured(rng, 500 if quick else 8000)
         cases += L.gen_structured(rng, 40 if quick else 600, long_lines=True)
         return cases
@@ -80,7 +86,7 @@ class C09(vlib.PropertyCheck):
     def extra_steps(self, ctx):
         rng = ctx['rng']
         cases = (L.gen_depth_sweep(rng, [19, 20, 21, 159, 160, 161, 254, 255]) + L.gen_chain([10, 20, 40, 80, 160, 255]) +
-                 L.gen_tables(rng, [20, 160, 255]))
+                 L.gen_tables(rng, [20, 160, 255]) + L.gen_registered(rng, [3, 4, 13, 20, 40], cycles=2)[:5])
         return L.impl_faults(self, ctx, cases)
 
     def search_gen(self, tier, rng):
